@@ -581,8 +581,10 @@ def check_volume(R, F, inp):
     struct = nat.struct_from_repr(inp["struct"])
     atoms = nat.count_atoms(struct)
     args, kw, fam = list(inp["args"]), dict(inp["kw"]), inp["family"]
-    ident = "%s|%s" % (fid(struct), ",".join([repr(x) for x in args] + ["%s=%r" % (k, kw[k]) for k in sorted(kw)]))
+    call = ",".join([repr(x) for x in args] + ["%s=%r" % (k, kw[k]) for k in sorted(kw)])
     kind, want = oracle_volume(atoms, args, kw)
+    lattice = fam.startswith("volume:lattice")       # the lattice volume does not depend on the formula
+    ident = call if lattice else "%s|%s" % (fid(struct), call)
     f = formula(struct)
     R.ok(1, (fam, tuple(sorted(kw)), len(args)))
     try:
